@@ -72,7 +72,7 @@ PROPS = {
         "assumptions": [],
     },
     "C05": {
-        "lean": ["Knut.Properties.C05", "Knut.Properties.C05Verdict", "Knut.Properties.C05Inserts", "Knut.Properties.C05Valued"],
+        "lean": ["Knut.Properties.C05", "Knut.Properties.C05Verdict", "Knut.Properties.C05Inserts", "Knut.Properties.C05Valued", "Knut.Properties.C05Layout"],
         "level": "proof",
         "claim": "PARTIAL proof + metamorphic correspondence. Proved for all directive lists and all permutations of them: ofList_spec (the builder's days are sorted by date and each day holds "
                  "exactly the directives of its date, per kind, in input order), C05_same_dates, C05_same_day_content (per day and kind the contents are permutations of each other), "
